@@ -134,9 +134,20 @@ let strip_comment (o : string) : string =
   | Some j when j > 0 && o.[j-1] = ' ' && (j + 1 >= String.length o || o.[j+1] = ' ') -> String.trim (String.sub o 0 j)
   | _ -> o
 
+(* projection of the comparison, chosen per property by the orchestrator:
+   -noevents  : compare results only (cut the " ;; <I/O events>" part on both sides)
+   -skip a,b  : execute but do not compare the operations named *)
+let noevents = ref false
+let skip : string list ref = ref []
+let cut_events (o : string) : string =
+  if !noevents then String.trim (fst (split_first o " ;; ")) else o
+
 let () =
   let path = ref "" in
-  Arg.parse [("-v", Arg.Set verbose, "verbose")] (fun s -> path := s) "driver [-v] trace";
+  Arg.parse [("-v", Arg.Set verbose, "verbose");
+             ("-noevents", Arg.Set noevents, "do not compare I/O events");
+             ("-skip", Arg.String (fun s -> skip := String.split_on_char ',' s), "ops not compared")]
+    (fun s -> path := s) "driver [-v] [-noevents] [-skip ops] trace";
   let ic = if !path = "" then stdin else open_in !path in
   let lineno = ref 0 and checked = ref 0 and mism = ref 0 and scen = ref "" in
   let engine = Engine_driver.create () in
@@ -161,10 +172,11 @@ let () =
           Hashtbl.replace times key (c + 1, t +. (Sys.time () -. t0));
           let got_cmp = strip_comment got in
           (match o with
-           | None -> if got_cmp <> "" && f.(0) = "F" && got_cmp <> "ok" then () else ()
+           | None -> ()
+           | Some _ when Array.length f > 1 && List.mem f.(1) !skip -> ()
            | Some exp ->
              incr checked;
-             if exp <> got_cmp then begin
+             if cut_events exp <> cut_events got_cmp then begin
                incr mism;
                Printf.printf "MISMATCH scenario=%s line=%d: %s\n  impl : %s\n  model: %s\n"
                  !scen !lineno script exp got
